@@ -166,6 +166,8 @@ impl Append for RollingFileAppender {
     fn append(&self, record: &Record) -> anyhow::Result<()> {
         // TODO(eas): Perhaps this is better as a concurrent queue?
         let mut writer = self.writer.lock();
+        #[cfg(feature = "verif_hooks")]
+        crate::verif::sync_point("rolling.locked", 0);
 
         let is_pre_process = self.policy.is_pre_process();
         let log_writer = self.get_writer(&mut writer)?;
@@ -183,13 +185,19 @@ impl Append for RollingFileAppender {
             // data that comes in while we are processing the file rotation.
 
             self.policy.process(&mut file)?;
+            #[cfg(feature = "verif_hooks")]
+            crate::verif::sync_point("rolling.pre_processed", 0);
 
             let log_writer_new = self.get_writer(&mut writer)?;
             self.encoder.encode(log_writer_new, record)?;
             log_writer_new.flush()?;
+            #[cfg(feature = "verif_hooks")]
+            crate::verif::sync_point("rolling.flushed", 0);
         } else {
             self.encoder.encode(log_writer, record)?;
             log_writer.flush()?;
+            #[cfg(feature = "verif_hooks")]
+            crate::verif::sync_point("rolling.flushed", 1);
             let len = log_writer.len;
 
             let mut file = LogFile {
@@ -199,6 +207,8 @@ impl Append for RollingFileAppender {
             };
 
             self.policy.process(&mut file)?;
+            #[cfg(feature = "verif_hooks")]
+            crate::verif::sync_point("rolling.post_processed", 0);
         }
 
         Ok(())
